@@ -40,6 +40,7 @@ import (
 	"github.com/google/go-containerregistry/pkg/v1/tarball"
 	"github.com/google/osv-scalibr/artifact/image/layerscanning/image"
 	"github.com/google/osv-scalibr/artifact/image/require"
+	"github.com/google/osv-scalibr/artifact/image/unpack"
 	scalibrfs "github.com/google/osv-scalibr/fs"
 	"github.com/google/osv-scalibr/log"
 
@@ -365,8 +366,44 @@ func run(c tcase) string {
 			}
 			return nil
 		})
-		return fmt.Sprintf("err=0 nv=%d walk=%s look=%s maxdisk=%d", len(cls), strings.Join(walks, "|"), strings.Join(looks, "|"), maxdisk)
+		return fmt.Sprintf("err=0 nv=%d walk=%s look=%s maxdisk=%d squash=%s", len(cls), strings.Join(walks, "|"), strings.Join(looks, "|"), maxdisk, squash(c, img))
 	})
+}
+
+// squash unpacks the same image with artifact/image/unpack (UnpackSquashed, default config) and lists the regular files
+// it left on disk with their content: the property says they are the regular files of the final view.
+func squash(c tcase, img v1.Image) string {
+	if c.req != "A" || c.limit < 1<<20 {
+		return "na"
+	}
+	dir, err := os.MkdirTemp("", "squash-*")
+	if err != nil {
+		return "na"
+	}
+	defer os.RemoveAll(dir)
+	u, err := unpack.NewUnpacker(unpack.DefaultUnpackerConfig())
+	if err != nil {
+		return "na"
+	}
+	if err := u.UnpackSquashed(dir, img); err != nil {
+		return "err"
+	}
+	var items []string
+	_ = filepath.WalkDir(dir, func(p string, d fs.DirEntry, err error) error {
+		if err != nil || !d.Type().IsRegular() {
+			return nil
+		}
+		rel, _ := filepath.Rel(dir, p)
+		b, e := os.ReadFile(p)
+		if e != nil {
+			items = append(items, hx.Hex(filepath.ToSlash(rel))+":readerr")
+			return nil
+		}
+		items = append(items, hx.Hex(filepath.ToSlash(rel))+":"+content(b))
+		return nil
+	})
+	sort.Strings(items)
+	return hx.Join(items, ",")
 }
 
 // ---------------------------------------------------------------- generators
